@@ -659,14 +659,27 @@ class TOC(object):
     @classmethod
     def read(cls, storage, indexname, gen=None, schema=None):
         if gen is None:
-            gen = cls._latest_generation(storage, indexname)
-            if gen < 0:
-                raise EmptyIndexError("Index %r does not exist in %r"
-                                      % (indexname, storage))
-
-        # Read the content of this index from the .toc file.
-        tocfilename = cls._filename(indexname, gen)
-        stream = storage.open_file(tocfilename)
+            # Read the newest TOC. A commit by another thread or process can
+            # replace (and delete) it between listing the storage and opening
+            # the file: in that case look for the newer one
+            retries = 10
+            while True:
+                gen = cls._latest_generation(storage, indexname)
+                if gen < 0:
+                    raise EmptyIndexError("Index %r does not exist in %r"
+                                          % (indexname, storage))
+                try:
+                    stream = storage.open_file(cls._filename(indexname, gen))
+                    break
+                except IOError:
+                    retries -= 1
+                    if (retries <= 0 or
+                        cls._latest_generation(storage, indexname) == gen):
+                        raise
+        else:
+            # Read the content of this index from the .toc file.
+            tocfilename = cls._filename(indexname, gen)
+            stream = storage.open_file(tocfilename)
 
         def check_size(name, target):
             sz = stream.read_varint()
